@@ -403,7 +403,9 @@ def gen_group_tables(rng):
     """three tables with distinct column prefixes; storage mixes memory and Parquet"""
     return [gen_table(rng, "ta", "a"), gen_table(rng, "tb", "b"), gen_table(rng, "tc", "e", storage=rng.choice(["memory", "parquet"]))]
 
-def read_rule_list(repo="/repo"):
+def read_rule_list(repo=None):
+    import vlib
+    repo = repo or vlib.REPO
     """production rule names in order and max_iterations, re-read from the optimizer source"""
     import re
     src = open(repo + "/src/optimizer/mod.rs").read()
